@@ -680,8 +680,9 @@ pub(crate) fn keygen_case<const N: usize>(seed: [u8; 32]) -> Result<(), String> 
 pub(crate) fn search_keygen(_seed: u64) -> Option<String> {
     let mut seeds: Vec<[u8; 32]> = vec![[0u8; 32], [1u8; 32], [2u8; 32]];
     // seeds whose first surviving candidate has a coefficient of F beyond 8 bits on the tree as found (F8),
-    // or (73386) one equal to the excluded minimum -128
-    for ctr in [785u64, 2261, 2907, 1052, 73386] { let mut s = [0u8; 32]; s[..8].copy_from_slice(&ctr.to_le_bytes()); seeds.push(s); }
+    // or (73386) one equal to the excluded minimum -128, or (5851) a candidate whose Gram-Schmidt norm lies
+    // between 1.17^2 q = 16822.41 and 16823
+    for ctr in [785u64, 2261, 2907, 1052, 73386, 5851] { let mut s = [0u8; 32]; s[..8].copy_from_slice(&ctr.to_le_bytes()); seeds.push(s); }
     for s in seeds {
         let r = std::panic::catch_unwind(|| keygen_case::<512>(s));
         if let Ok(Err(why)) = r { return Some(format!("{} | argv=keygen-case,512,{}", why, hexs(&s))); }
